@@ -627,10 +627,36 @@ func ruleStatsPayloadEach(r *Run) {
 				if !ok || ei < 0 {
 					return false
 				}
-				for _, o := range p.resultValuesAt(rt, ei) {
-					if !isNilConst(o) {
-						return false
+				// a return that can carry a nil error: the nil constant, or an error value that is not known to be
+				// non-nil here (`return err` right after `_, err := write(…)` succeeds whenever the write does)
+				mayBeNil := false
+				for _, o := range p.origins(rt.Results[ei], originOpts{local: true}) {
+					if isNilConst(o) {
+						mayBeNil = true
+						continue
 					}
+					knownNonNil := false
+					for _, g := range guardsOf(rt.Block()) {
+						a, b, op, ok := g.cmp()
+						if ok && op == token.NEQ && isNilConst(b) && (a == o || p.sameValue(a, o)) {
+							knownNonNil = true
+						}
+					}
+					if knownNonNil {
+						continue
+					}
+					fresh := true
+					for _, d := range p.origins(o, originOpts{}) {
+						if !isFreshError(d) {
+							fresh = false
+						}
+					}
+					if !fresh {
+						mayBeNil = true
+					}
+				}
+				if !mayBeNil {
+					return false
 				}
 				hit = x
 				return true
